@@ -70,6 +70,17 @@ func (g *rpGen) block(depth int, pfx string, n int) []Sx {
 				name = fmt.Sprintf("/g%d", gi)
 			}
 			sub := pfx + "/g" + fmt.Sprint(gi)
+			if depth > 0 && pfx != "" && g.r.Chance(1, 5) && !strings.HasSuffix(name, "/") {
+				// a prefix text that already occurs in the enclosing prefix: the same segment again, or a leading part of it
+				segs := strings.Split(strings.TrimPrefix(pfx, "/"), "/")
+				seg := segs[g.r.Intn(len(segs))]
+				if len(seg) > 2 && g.r.Bool() {
+					seg = seg[:len(seg)-1]
+				}
+				if seg != "" {
+					name, sub = "/"+seg, pfx+"/"+seg
+				}
+			}
 			if depth == 0 && g.r.Chance(1, 8) { // a top-level group with a root prefix
 				name, sub = g.r.Pick([]string{"", "/"}), pfx
 			}
